@@ -6,40 +6,45 @@ From MV Require Import Lib.ListX Kernel.Model Kernel.Lifecycle.
 Open Scope Z_scope.
 
 (* every existing object still exists, with the same status *)
+Definition same_id (a a' : actor) : Prop := a_tok a' = a_tok a /\ a_parent a' = a_parent a /\ a_role a' = a_role a.
 Definition keep (s s' : kstate) : Prop :=
-  forall v a, get s v = Some a -> exists a', get s' v = Some a' /\ a_st a' = a_st a.
+  forall v a, get s v = Some a -> exists a', get s' v = Some a' /\ a_st a' = a_st a /\ same_id a a'.
 (* every existing object still exists, and Terminated objects stay Terminated *)
 Definition mono (s s' : kstate) : Prop :=
-  forall v a, get s v = Some a -> exists a', get s' v = Some a' /\ (a_st a = Terminated -> a_st a' = Terminated).
+  forall v a, get s v = Some a -> exists a', get s' v = Some a' /\ (a_st a = Terminated -> a_st a' = Terminated) /\ same_id a a'.
+
+Lemma same_id_refl a : same_id a a. Proof. repeat split. Qed.
+Lemma same_id_trans a b c : same_id a b -> same_id b c -> same_id a c.
+Proof. unfold same_id. intros (A1 & A2 & A3) (B1 & B2 & B3). repeat split; congruence. Qed.
 
 Lemma keep_refl s : keep s s.
-Proof. intros v a H. exists a. auto. Qed.
+Proof. intros v a H. exists a. split; [assumption|]. split; [reflexivity|apply same_id_refl]. Qed.
 Lemma keep_trans s1 s2 s3 : keep s1 s2 -> keep s2 s3 -> keep s1 s3.
 Proof.
-  intros H1 H2 v a Hg. destruct (H1 v a Hg) as (a2 & Hg2 & E2). destruct (H2 v a2 Hg2) as (a3 & Hg3 & E3).
-  exists a3. split; [assumption|congruence].
+  intros H1 H2 v a Hg. destruct (H1 v a Hg) as (a2 & Hg2 & E2 & I2). destruct (H2 v a2 Hg2) as (a3 & Hg3 & E3 & I3).
+  exists a3. split; [assumption|]. split; [congruence|eapply same_id_trans; eassumption].
 Qed.
 Lemma keep_mono s s' : keep s s' -> mono s s'.
-Proof. intros H v a Hg. destruct (H v a Hg) as (a' & Hg' & E). exists a'. split; [assumption|congruence]. Qed.
+Proof. intros H v a Hg. destruct (H v a Hg) as (a' & Hg' & E & I). exists a'. split; [assumption|]. split; [congruence|assumption]. Qed.
 Lemma mono_refl s : mono s s.
 Proof. apply keep_mono, keep_refl. Qed.
 Lemma mono_trans s1 s2 s3 : mono s1 s2 -> mono s2 s3 -> mono s1 s3.
 Proof.
-  intros H1 H2 v a Hg. destruct (H1 v a Hg) as (a2 & Hg2 & E2). destruct (H2 v a2 Hg2) as (a3 & Hg3 & E3).
-  exists a3. split; [assumption|auto].
+  intros H1 H2 v a Hg. destruct (H1 v a Hg) as (a2 & Hg2 & E2 & I2). destruct (H2 v a2 Hg2) as (a3 & Hg3 & E3 & I3).
+  exists a3. split; [assumption|]. split; [auto|eapply same_id_trans; eassumption].
 Qed.
 
 Lemma keep_same_actors s s' : actors s' = actors s -> keep s s'.
-Proof. intros E v a Hg. exists a. unfold get in *. rewrite E. auto. Qed.
+Proof. intros E v a Hg. exists a. unfold get in *. rewrite E. split; [assumption|]. split; [reflexivity|apply same_id_refl]. Qed.
 
-Lemma keep_put s u a0 b : get s u = Some a0 -> a_st b = a_st a0 -> keep s (put s u b).
+Lemma keep_put s u a0 b : get s u = Some a0 -> a_st b = a_st a0 /\ same_id a0 b -> keep s (put s u b).
 Proof.
-  intros Hu Hb v a Hg. destruct (Nat.eq_dec u v) as [->|Hne].
-  - exists b. split; [eapply get_put_same; exact Hu|]. congruence.
-  - exists a. split; [rewrite get_put_other by assumption; exact Hg|reflexivity].
+  intros Hu [Hb Hi] v a Hg. destruct (Nat.eq_dec u v) as [->|Hne].
+  - exists b. split; [eapply get_put_same; exact Hu|]. rewrite Hu in Hg. inversion Hg; subst. split; assumption.
+  - exists a. split; [rewrite get_put_other by assumption; exact Hg|]. split; [reflexivity|apply same_id_refl].
 Qed.
 
-Lemma keep_upd_actor s u f : (forall a, a_st (f a) = a_st a) -> keep s (upd_actor s u f).
+Lemma keep_upd_actor s u f : (forall a, a_st (f a) = a_st a /\ same_id a (f a)) -> keep s (upd_actor s u f).
 Proof.
   intros Hf. unfold upd_actor. destruct (get s u) as [a0|] eqn:E; [|apply keep_refl].
   eapply keep_put; [exact E|apply Hf].
@@ -49,14 +54,15 @@ Qed.
 Lemma mono_upd_status s u x a0 : get s u = Some a0 -> a_st a0 <> Terminated -> mono s (upd_actor s u (w_st x)).
 Proof.
   intros Hu Hn v a Hg. unfold upd_actor. rewrite Hu. destruct (Nat.eq_dec u v) as [->|Hne].
-  - exists (w_st x a0). split; [eapply get_put_same; exact Hu|]. intros Ht. rewrite Hu in Hg. inversion Hg; subst. contradiction.
-  - exists a. split; [rewrite get_put_other by assumption; exact Hg|auto].
+  - exists (w_st x a0). split; [eapply get_put_same; exact Hu|]. rewrite Hu in Hg. inversion Hg; subst.
+    split; [intros Ht; contradiction|repeat split].
+  - exists a. split; [rewrite get_put_other by assumption; exact Hg|]. split; [auto|apply same_id_refl].
 Qed.
 
-Ltac kp := intros; reflexivity.
+Ltac kp := intros; split; [reflexivity|repeat split].
 
 Lemma keep_push_sys s u e : keep s (push_sys s u e).
-Proof. unfold push_sys. apply keep_upd_actor. intros a. destruct (e_msg e); reflexivity. Qed.
+Proof. unfold push_sys. apply keep_upd_actor. intros a. destruct (e_msg e); split; try reflexivity; repeat split. Qed.
 Lemma keep_deliver_sys s t snd m : keep s (deliver_sys s t snd m).
 Proof.
   unfold deliver_sys. destruct (lookup t (registry s)); [apply keep_push_sys|].
@@ -73,7 +79,7 @@ Lemma keep_deliver_user s t snd m s' o : deliver_user s t snd m = (s', o) -> kee
 Proof.
   unfold deliver_user. destruct (lookup t (registry s)) as [u|]; [|apply keep_abyss_user].
   destruct (get s u) as [a|] eqn:E; [|apply keep_abyss_user].
-  intros H; inversion H; subst. eapply keep_put; [exact E|reflexivity].
+  intros H; inversion H; subst. eapply keep_put; [exact E|split; [reflexivity|repeat split]].
 Qed.
 Lemma keep_terminate s self t g s' o : terminate s self t g = (s', o) -> keep s s'.
 Proof.
@@ -91,12 +97,17 @@ Proof.
   induction ws as [|w rest IH]; intros s self; cbn [notify_all]; [apply keep_refl|].
   eapply keep_trans; [apply keep_deliver_sys|apply IH].
 Qed.
+Lemma keep_restart_all cs : forall s self, keep s (restart_all s self cs).
+Proof.
+  induction cs as [|c rest IH]; intros s self; cbn [restart_all]; [apply keep_refl|].
+  eapply keep_trans; [apply keep_deliver_sys|apply IH].
+Qed.
 Lemma keep_set_registry s r : keep s (set_registry s r).
 Proof. apply keep_same_actors. reflexivity. Qed.
 
 Lemma keep_append s x : keep s (set_actors s (actors s ++ [x])).
 Proof.
-  intros v a Hg. exists a. split; [|reflexivity]. unfold get, set_actors in *; cbn [actors].
+  intros v a Hg. exists a. split; [|split; [reflexivity|apply same_id_refl]]. unfold get, set_actors in *; cbn [actors].
   rewrite nth_error_app1; [exact Hg|]. apply nth_error_Some. congruence.
 Qed.
 
@@ -204,7 +215,7 @@ Qed.
 
 (* status of u after a status-keeping operation *)
 Lemma keep_status s s' u a : keep s s' -> get s u = Some a -> exists a', get s' u = Some a' /\ a_st a' = a_st a.
-Proof. intros K H. exact (K u a H). Qed.
+Proof. intros K H. destruct (K u a H) as (a' & H1 & H2 & _). eauto. Qed.
 
 Lemma mono_try_terminated s u snd s' o p : try_terminated roles s u snd = (s', o, p) -> mono s s'.
 Proof.
@@ -238,8 +249,9 @@ Proof.
       inversion H; subst. eapply mono_trans; [apply keep_mono; eapply keep_trans; [exact K12|exact K3]|].
       apply mono_trans with (s2 := upd_actor s3 u (fun b => w_st Alive (w_inst inst b))).
       * intros v b Hg. unfold upd_actor. rewrite Ha3. destruct (Nat.eq_dec u v) as [->|Hne].
-        -- eexists. split; [eapply get_put_same; exact Ha3|]. intros Ht. rewrite Ha3 in Hg. inversion Hg; subst. congruence.
-        -- exists b. split; [rewrite get_put_other by assumption; exact Hg|auto].
+        -- eexists. split; [eapply get_put_same; exact Ha3|]. rewrite Ha3 in Hg. inversion Hg; subst.
+           split; [intros Ht; congruence|repeat split].
+        -- exists b. split; [rewrite get_put_other by assumption; exact Hg|]. split; [auto|apply same_id_refl].
       * apply keep_mono. eapply keep_trans; [apply keep_deliver_sys|]. eapply keep_trans; [apply keep_deliver_sys|apply keep_deliver_sys].
 Qed.
 
@@ -253,6 +265,7 @@ Proof.
     eapply mono_trans; [apply keep_mono; eapply keep_terminate; exact E1|eapply mono_try_terminated; exact E2].
   - intros H; inversion H; subst. apply keep_mono, keep_deliver_sys.
   - destruct (escalate s u r) as [[s1 o1] p1] eqn:E. intros H; inversion H; subst. apply keep_mono. eapply keep_escalate; exact E.
+  - intros H; inversion H; subst. apply keep_mono, keep_restart_all.
 Qed.
 
 Lemma mono_on_accident s u r snd s' o p : on_accident roles s u r snd = (s', o, p) -> mono s s'.
@@ -297,13 +310,14 @@ Proof.
   - (* SRestart *) destruct (a_st a) eqn:Est; try (intros H; inversion H; subst; apply mono_refl).
     intros H. apply mono_trans with (s2 := upd_actor s u (w_st Restarting)); [eapply mono_upd_status; [exact Ea|congruence]|]. revert H.
     apply (bind_rel mono); [apply mono_trans| |].
-    + intros s1 o1 p1 E. apply keep_mono. eapply keep_handle; exact E.
+    + intros s1 o1 p1 E. apply keep_mono. eapply keep_trans; [apply keep_deliver_sys|eapply keep_handle; exact E].
     + intros s1 s2 o2 p2. destruct (get s1 u) as [a2|]; [|intros H; inversion H; subst; apply mono_refl].
       destruct (terminate_all s1 (a_tok a2) (a_children a2) false) as [s3 o3] eqn:E3.
       destruct (try_restarted roles s3 u (e_snd e)) as [[s4 o4] p4] eqn:E4. intros H; inversion H; subst.
       eapply mono_trans; [apply keep_mono; eapply keep_terminate_all; exact E3|eapply mono_try_restarted; exact E4].
   - apply mono_on_accident.
-  - destruct (st_ge_terminating (a_st a)); intros H; inversion H; subst; apply keep_mono.
+  - destruct (e_snd e =? a_parent a); [intros H; inversion H; subst; apply mono_refl|].
+    destruct (st_ge_terminating (a_st a)); intros H; inversion H; subst; apply keep_mono.
     + apply keep_deliver_sys.
     + apply keep_upd_actor; kp.
   - intros H; inversion H; subst. apply keep_mono. apply keep_upd_actor; kp.
@@ -349,9 +363,14 @@ Proof.
   unfold pop1. destruct (a_inflight a); [reflexivity|]. destruct (a_sysq a); [|reflexivity].
   destruct (a_susp a); [reflexivity|]. destruct (a_userq a); reflexivity.
 Qed.
+Lemma pop1_id a : same_id a (pop1 a).
+Proof.
+  unfold pop1. destruct (a_inflight a); [apply same_id_refl|]. destruct (a_sysq a); [|repeat split].
+  destruct (a_susp a); [apply same_id_refl|]. destruct (a_userq a); [apply same_id_refl|repeat split].
+Qed.
 Lemma keep_normalize s : keep s (normalize s).
 Proof.
-  intros v a Hg. exists (pop1 a). split; [|apply pop1_st].
+  intros v a Hg. exists (pop1 a). split; [|split; [apply pop1_st|apply pop1_id]].
   unfold normalize, get, set_actors in *; cbn [actors]. rewrite nth_error_map, Hg. reflexivity.
 Qed.
 
@@ -389,7 +408,7 @@ Theorem terminated_is_final s u a ls s' os :
   get s u = Some a -> a_st a = Terminated -> krun roles s ls = Some (s', os) ->
   exists a', get s' u = Some a' /\ a_st a' = Terminated.
 Proof.
-  intros Hg Ht Hr. destruct (krun_mono ls s s' os Hr u a Hg) as (a' & Hg' & Hm). exists a'. auto.
+  intros Hg Ht Hr. destruct (krun_mono ls s s' os Hr u a Hg) as (a' & Hg' & Hm & _). exists a'. auto.
 Qed.
 
 (* after an object is Terminated, any later step of its mailbox, after any further run, handles nothing *)
